@@ -413,6 +413,39 @@ def run_long(ctx, pt):
     ctx.eq(K + '/fresh-object-after-%d-calls-in-the-process' % N, [(lambda r: (r[0], obs(r[1])))(ctx.attempt(call, o2, i)) for i in probe[:2]], [('ok', b) for b in base[:2]])
 
 
+# ---- deep copies ---------------------------------------------------------------------------------------------------
+
+def pts_deepcopy(tier):
+    return sorted(k for k, v in kinds(tier).items() if not v.singleton)
+
+
+def run_deepcopy(ctx, name):
+    """copy.deepcopy of an object (fresh, or after one earlier event) is an equally configured object: it answers every
+    judged call like a fresh one, and using it does not change what the original answers (objects that cannot be deep-copied
+    are not judged)"""
+    K = kinds('thorough')[name]
+    K.fresh()                      # reference answers from pristine children
+    judged = [e for e in K.order if K.evs[e][2] and not e.startswith('sibling')][:4]
+    for pre in [None] + K.order[:6]:
+        st = K.fresh()
+        if pre is not None:
+            try:
+                K.apply(st, pre)
+            except Exception:
+                pass
+        try:
+            d = {'o': copy.deepcopy(st['o']), 's': st['s']}
+        except Exception:
+            continue
+        for ev in judged:
+            for who, obj in (('copy', d), ('original', st), ('copy', d)):
+                try:
+                    r = ('ok', K.apply(obj, ev))
+                except Exception as e:
+                    r = ('exc', type(e).__name__)
+                ctx.eq('C10/%s/%s/on-a-deep-copy/%s-after/%s' % (name, ev, who, pre or '(nothing)'), r, K.base(ev))
+
+
 # ---- argument types: the same byte string handed over as bytes, bytearray, memoryview ---------------------------------
 
 def _typed_kinds():
@@ -580,7 +613,9 @@ def run_firstuse(ctx, pt):
 
 
 def subchecks():
-    return [Sub('argument-types', pts_types, run_types, engine='P',
+    return [Sub('deep-copies', pts_deepcopy, run_deepcopy, engine='H', chunk=1,
+                bound='every object kind of the histories subcheck (module instances excepted): a deep copy taken from a fresh object and after each of its first 6 events; up to 4 judged calls on the copy, on the original, on the copy again vs pristine answers'),
+            Sub('argument-types', pts_types, run_types, engine='P',
                 bound='24 object kinds x 7 message lengths: the message as bytes, bytearray, memoryview and list of ints - a returned value equals the one for bytes (refusals are not judged)'),
             Sub('first-use-pairs', pts_firstuse, run_firstuse, engine='H', chunk=1,
                 bound='every ordered pair (A, B) of 77 configurations (every SHA-2 / SHA-3 / BLAKE / BLAKE2 size incl. the unusual ones, module instances, Keccak, Skein, MD6, HMAC, AES / DES / TDEA / Serpent / Threefish in both directions, modes, stream ciphers, TLSH, Nilsimsa, CRC): A is used first in a fresh process, then B; B answers what it answers when it is the first thing the process does'),
